@@ -112,3 +112,76 @@ def table(expr, names, domain, build=None):
         env = build(combo) if build else dict(zip(names, combo))
         out.append((combo, ev(expr, env)))
     return out
+
+
+class _Return(Exception):
+    def __init__(self, value):
+        self.value = value
+
+
+def run(body, env, fuel=200):
+    """Straight-line / if / return bodies over the same representatives: assignments to plain names and to attributes
+    of record values (`self.x = e` with self a dict), `if`, `return`, docstrings, `pass`.  Returns the returned value
+    (None when the body falls off its end); the environment is updated in place.  `hash(x)` is the marker ('hash', x),
+    `a ^ b` of markers the frozenset of both (order-free, like xor).  Anything else: Undecided."""
+    def ev2(e):
+        if isinstance(e, ast.Call) and norm(e.func) == 'hash' and len(e.args) == 1 and not e.keywords:
+            return ('hash', ev2(e.args[0]))
+        if isinstance(e, ast.BinOp) and isinstance(e.op, ast.BitXor):
+            a, b = ev2(e.left), ev2(e.right)
+            parts = []
+            for x in (a, b):
+                parts.extend(sorted(x[1], key=repr) if isinstance(x, tuple) and x and x[0] == 'xor' else [x])
+            return ('xor', tuple(sorted(parts, key=repr)))
+        if isinstance(e, ast.Tuple):
+            return tuple(ev2(x) for x in e.elts)
+        if isinstance(e, ast.Name) and e.id == 'NotImplemented':
+            return NotImplemented
+        if isinstance(e, ast.BoolOp):
+            v = None
+            for x in e.values:
+                v = ev2(x)
+                if isinstance(e.op, ast.And) and not v:
+                    return v
+                if isinstance(e.op, ast.Or) and v:
+                    return v
+            return v
+        if isinstance(e, ast.UnaryOp) and isinstance(e.op, ast.Not):
+            return not ev2(e.operand)
+        if isinstance(e, ast.Compare) and len(e.ops) == 1 and isinstance(e.ops[0], (ast.Eq, ast.NotEq)) \
+                and all(isinstance(x, (ast.Name, ast.Attribute, ast.Constant)) for x in (e.left, e.comparators[0])):
+            a, b = ev2(e.left), ev2(e.comparators[0])
+            same = (a == b) and (type(a) is type(b) or not isinstance(a, bool) and not isinstance(b, bool))
+            return same if isinstance(e.ops[0], ast.Eq) else not same
+        return ev(e, env)
+
+    def go(stmts):
+        nonlocal fuel
+        for st in stmts:
+            fuel -= 1
+            if fuel < 0:
+                raise Undecided('step budget')
+            if isinstance(st, ast.Expr) and isinstance(st.value, ast.Constant):
+                continue
+            if isinstance(st, ast.Pass):
+                continue
+            if isinstance(st, ast.Return):
+                raise _Return(ev2(st.value) if st.value is not None else None)
+            if isinstance(st, ast.If):
+                go(st.body if ev2(st.test) else st.orelse)
+                continue
+            if isinstance(st, ast.Assign) and len(st.targets) == 1:
+                t = st.targets[0]
+                v = ev2(st.value)
+                if isinstance(t, ast.Name):
+                    env[t.id] = v
+                    continue
+                if isinstance(t, ast.Attribute) and isinstance(t.value, ast.Name) and isinstance(env.get(t.value.id), dict):
+                    env[t.value.id][t.attr] = v
+                    continue
+            raise Undecided('statement %s' % norm(st).split('\n')[0][:50])
+    try:
+        go(body)
+    except _Return as r:
+        return r.value
+    return None
